@@ -397,7 +397,7 @@ fn main() {
          the first component (later component, zero padding, revision, or a tie of versions of \
          different length).",
     );
-    run.assume("versions contain none of - < > { } and digit runs have at most 18 digits (statement domain)");
+    run.assume("versions contain none of - < > { } and digit runs have a value below 10^18 (at most 18 digits after leading zeros; statement domain)");
     run.assume("reference dewey model written from the statement: mc/core/src/model/dewey.rs");
 
     // (a) token-level versions
@@ -596,6 +596,26 @@ fn main() {
         runs.dedup();
         run.bound(format!("(g) {} digit runs (lengths 1..18, five digit patterns, 0..3 leading zeros) as component and as revision, all ordered pairs", runs.len()));
         par_items(&run, "C01(g) digit runs", &runs, |_, a, t| {
+            for b in &runs {
+                t.states += 1;
+                t.transitions += 2;
+                both_placements(&run, t, &format!("1.{}", a), &format!("1.{}", b));
+                both_placements(&run, t, &format!("2nb{}", a), &format!("2nb{}", b));
+            }
+        });
+    }
+    // (g2) small values behind long runs of zeros: a digit run is its numeric value however many
+    // digits spell it (runs of 16..301 digits whose value stays far below the 18-digit domain)
+    {
+        let mut runs: Vec<String> = vec![];
+        for v in ["0", "1", "2", "9", "10", "99", "123456789"] {
+            runs.push(v.to_string());
+            for z in [15usize, 16, 17, 18, 19, 20, 21, 22, 24, 31, 32, 33, 35, 36, 37, 53, 54, 55, 63, 64, 65, 127, 128, 129, 255, 256, 257, 300] {
+                runs.push(format!("{}{}", "0".repeat(z), v));
+            }
+        }
+        run.bound(format!("(g2) {} zero-padded digit runs (7 values behind 15..300 zeros) as component and as revision, all ordered pairs", runs.len()));
+        par_items(&run, "C01(g2) padded digit runs", &runs, |_, a, t| {
             for b in &runs {
                 t.states += 1;
                 t.transitions += 2;
